@@ -57,6 +57,9 @@ func (r request) line() string {
 	if r.op == "nestx" {
 		return "nestx\t" + r.format + "\t" + strconv.Itoa(r.depth)
 	}
+	if r.op == "wb" {
+		return "wb\t" + r.format + "\t" + core.Escape(string(r.input))
+	}
 	if r.op == "file" {
 		return "file\t" + r.kind + "\t" + r.format + "\t" + core.Escape(string(r.input))
 	}
@@ -102,6 +105,8 @@ func execute(c *core.Ctx, reqs []request) {
 			c.Emit("C02.nestx", r.format, strconv.Itoa(r.depth), parts[0], parts[1])
 		} else if r.op == "file" {
 			c.Emit("C02.file", r.kind, r.format, core.Escape(string(r.input)), parts[0], parts[1], parts[2], parts[3], parts[4])
+		} else if r.op == "wb" {
+			c.Emit("C02.wb", r.format, core.Escape(string(r.input)), parts[0], parts[1])
 		} else if r.op == "dec" {
 			c.Emit("C02.dec", r.format, core.Escape(string(r.input)), parts[0], parts[1], parts[2], r.expect, r.kind)
 		} else {
@@ -192,6 +197,12 @@ func Replay(c *core.Ctx, lines []string) {
 				panic(err)
 			}
 			reqs = append(reqs, request{op: "read", format: f[1], bufsize: bs, input: []byte(in)})
+		case f[0] == "C02.wb" && len(f) >= 3:
+			in, err := core.Unescape(f[2])
+			if err != nil {
+				panic(err)
+			}
+			reqs = append(reqs, request{op: "wb", format: f[1], input: []byte(in)})
 		case f[0] == "C02.cli" && len(f) >= 3:
 			in, err := core.Unescape(f[2])
 			if err != nil {
@@ -341,6 +352,29 @@ func Run(c *core.Ctx) {
 			reqs = append(reqs, genDec(c.G, f))
 		}
 	}
+	// the `default` branch of the two `switch format`: a format code that is none of the four constants
+	for i := 0; i < c.Scale(12, 100); i++ {
+		r := genCase(c.G, Formats[c.G.Intn(len(Formats))], 3000+i)
+		r.format = []string{"bad", "badm"}[i%2]
+		r.bufsize = 0
+		reqs = append(reqs, r)
+	}
+	// written back: Newick(), Nexus(), WritePhyloXML on the trees delivered for sound and for damaged documents,
+	// the three texts compared with the writer models
+	nwb := c.Scale(160, 4000)
+	for i := 0; i < nwb; i++ {
+		f := Formats[c.G.Intn(len(Formats))]
+		var in []byte
+		switch {
+		case i < len(wbHand):
+			f, in = wbHand[i][0], []byte(wbHand[i][1])
+		case c.G.Chance(0.7):
+			in = []byte(validDoc(c.G, f))
+		default:
+			in = genCase(c.G, f, 4000+i).input
+		}
+		reqs = append(reqs, request{op: "wb", format: f, input: in})
+	}
 	// size-scaling probes: the same kind of document at growing sizes, the time of the reader alone
 	scaleProbes(c)
 	// nesting probes
@@ -428,6 +462,101 @@ func multiDoc(g *core.G) string {
 		}
 		b.WriteString(nw)
 		b.WriteString(g.Pick(lineSeps))
+	}
+	return b.String()
+}
+
+// lengths next to which a length test of the code may sit (buffer sizes, message limits)
+var lenThresholds = []int{0, 1, 2, 15, 16, 17, 31, 32, 63, 64, 65, 79, 80, 81, 100, 127, 128, 129, 200, 255, 256, 257, 300, 4095, 4096, 4097}
+
+func lenNear(g *core.G) int {
+	n := lenThresholds[g.Intn(len(lenThresholds))] + g.Intn(5) - 2
+	if n < 0 {
+		n = 0
+	}
+	return n
+}
+
+// blankRun: n characters of blanks, now and then cut into whitespace-only lines
+func blankRun(g *core.G, n int) string {
+	var b strings.Builder
+	lines := g.Chance(0.5)
+	for b.Len() < n {
+		switch {
+		case lines && g.Chance(0.03):
+			b.WriteString(g.Pick([]string{"\n", "\r\n"}))
+		case g.Chance(0.15):
+			b.WriteByte('\t')
+		default:
+			b.WriteByte(' ')
+		}
+	}
+	return b.String()
+}
+
+// stressMulti: multi-tree streams whose blank runs, leftover texts and unterminated tails have lengths next to
+// the thresholds: 0..2 sound trees, then a tail (the error paths of ReadUntilSemiColon / ReadMultiTrees after the
+// last ';' depend on what was delivered before and on the raw and trimmed lengths of what is left)
+func stressMulti(g *core.G) string {
+	var b strings.Builder
+	k := g.Intn(3)
+	for i := 0; i < k; i++ {
+		b.WriteString(g.Pick([]string{"(A,B,(C,D));", "(a,b);", "((a:1,b:2)0.5:1,c);"}))
+		b.WriteString(g.Pick([]string{"\n", "\n", "", " ", "\r\n"}))
+	}
+	open := g.Pick([]string{"(E,F", "(E,(F,G)", "(E,F)", "x", "(E,F)x:1", "(E[c", "(" + strings.Repeat("a,", lenNear(g)/2)})
+	switch g.Intn(6) {
+	case 0, 1: // an unterminated last tree inside blank padding
+		b.WriteString(blankRun(g, lenNear(g)))
+		if g.Chance(0.5) {
+			b.WriteString("\n")
+		}
+		b.WriteString(open)
+		if g.Chance(0.6) {
+			b.WriteString(g.Pick([]string{"", "\n"}) + blankRun(g, lenNear(g)))
+		}
+	case 2: // leftover text that is no tree at all
+		b.WriteString(strings.Repeat(g.Pick([]string{"x", "ab ", "é"}), lenNear(g)))
+	case 3: // blanks only
+		b.WriteString(blankRun(g, lenNear(g)))
+	case 4: // a long blank run inside a tree
+		b.WriteString("(a," + blankRun(g, lenNear(g)) + "b)" + g.Pick([]string{";", ";\n", "", " ;" + blankRun(g, lenNear(g))}))
+	case 5: // blanks between the last tree and its ';', then more blanks
+		b.WriteString("(a,b)" + blankRun(g, lenNear(g)) + ";" + blankRun(g, lenNear(g)))
+	}
+	return b.String()
+}
+
+// degenerate trees for the writers: a tip root, a single node, single-child chains, every decoration at once
+var wbHand = [][2]string{{"newick", "(a);"}, {"newick", "((a,b));"}, {"newick", "((a:1,b:2)0.5/0.01:3[e]x[n],c[&k=v]:0.25[be])r[rc];"},
+	{"newick", "(((a)));"}, {"multi", "(a,b);(c:1e-3,d:1e21);"}, {"nexusm", "#NEXUS\nBEGIN TREES;\nTREE t = ((a,b)1:2,c);\nTREE u = (a);\nEND;"},
+	{"phyloxml", "<phyloxml><phylogeny><clade><name>a</name></clade></phylogeny></phyloxml>"},
+	{"phyloxmlm", "<phyloxml><phylogeny><clade><clade><name>a</name><branch_length>0.1</branch_length><confidence>3</confidence></clade></clade></phylogeny></phyloxml>"},
+	{"phyloxml", "<phyloxml><phylogeny><clade><clade><confidence>0.5</confidence><branch_length>2</branch_length><clade><name>x&lt;y</name></clade><clade><name>b</name></clade></clade><clade><name>c</name></clade></clade></phylogeny></phyloxml>"},
+	{"nextstrain", `{"version":"v2","tree":{"name":"a"}}`}, {"nextstrainm", `{"version":"v2","tree":{"name":"r","children":[{"name":"a","node_attrs":{"div":0.5}}]}}`}}
+
+var walkToks = []string{"(", "(", ")", ")", ",", ",", ":", ":1", ":0.5", "[c]", "[&x=1]", "a", "b", "1", "0.9", "0.5/0.1", "1/0.05", "x/y", " ", "\n", ";"}
+
+// tokenWalk: 2..14 tokens drawn from the Newick token alphabet, usually opened by '(' and closed by ';'
+func tokenWalk(g *core.G, format string) string {
+	var b strings.Builder
+	if g.Chance(0.8) {
+		b.WriteString("(")
+	}
+	n := 2 + g.Intn(13)
+	for i := 0; i < n; i++ {
+		b.WriteString(g.Pick(walkToks))
+	}
+	if g.Chance(0.8) {
+		b.WriteString(";")
+	}
+	switch format {
+	case "nexus", "nexusm":
+		return "#NEXUS\nBEGIN TREES;\nTREE t = " + b.String() + "\nEND;\n"
+	case "multi":
+		if g.Chance(0.5) {
+			return "(a,b);" + g.Pick([]string{"", "\n"}) + b.String()
+		}
 	}
 	return b.String()
 }
@@ -739,12 +868,32 @@ func oddNumber(g *core.G, doc string) string {
 	return doc[:sp[0]] + g.Pick(oddNumbers) + doc[sp[1]:]
 }
 
+// slashLabel puts a `support/p-value` label (integer, fractional, exponent forms on either side) after a ')' that
+// has none, so that delivered trees carry both fields in every combination of forms
+func slashLabel(g *core.G, doc string) string {
+	var at []int
+	for i := 0; i+1 < len(doc); i++ {
+		if doc[i] == ')' && (doc[i+1] == ':' || doc[i+1] == ',' || doc[i+1] == ')') {
+			at = append(at, i+1)
+		}
+	}
+	if len(at) == 0 {
+		return doc
+	}
+	i := at[g.Intn(len(at))]
+	lab := g.Pick([]string{"1", "5", "0", "100", "0.5", "1e2", ".5", "-1", "0.95"}) + "/" + g.Pick([]string{"0.05", "1", "0", "1e-3", "5", "-1"})
+	return doc[:i] + lab + doc[i:]
+}
+
 func validDoc(g *core.G, format string) string {
 	switch format {
 	case "newick", "multi", "nexus", "nexusm":
 		d := validDoc0(g, format)
 		if g.Chance(0.35) {
 			d = oddNumber(g, d)
+		}
+		if g.Chance(0.12) {
+			d = slashLabel(g, d)
 		}
 		return d
 	}
@@ -792,7 +941,24 @@ func mutate(g *core.G, format string, s string) string {
 	b := []byte(s)
 	nm := 1 + g.Intn(3)
 	for k := 0; k < nm; k++ {
-		switch g.Intn(8) {
+		switch g.Intn(10) {
+		case 8: // two dictionary tokens in a row (parser states that need a particular previous token)
+			i := g.Intn(len(b) + 1)
+			if j := bytes.LastIndexByte(b, ';'); j >= 0 && g.Chance(0.4) {
+				i = j
+			}
+			tok := g.Pick(dict(format)) + g.Pick(dict(format))
+			b = append(append(append([]byte{}, b[:i]...), tok...), b[i:]...)
+		case 9: // a run of blanks / of filler text whose length sits next to a power of two or a round number
+			i := g.Intn(len(b) + 1)
+			if g.Chance(0.3) {
+				i = len(b)
+			}
+			run := blankRun(g, lenNear(g))
+			if g.Chance(0.3) {
+				run = strings.Repeat(g.Pick([]string{"x", "a,", "(", "é"}), lenNear(g))
+			}
+			b = append(append(append([]byte{}, b[:i]...), run...), b[i:]...)
 		case 0: // truncate
 			if len(b) > 0 {
 				b = b[:g.Intn(len(b))]
@@ -940,6 +1106,14 @@ func genCase(g *core.G, format string, i int) request {
 			doc = mutate(g, format, doc)
 		}
 		return request{op: "read", format: format, bufsize: bufsize, input: []byte(doc)}
+	}
+	// a random walk over the token alphabet: reaches the error branches of the parser that need a particular
+	// state (empty node stack, a label after ')', a second length, a comment where none may stand …)
+	if (format == "newick" || format == "multi" || format == "nexus" || format == "nexusm") && g.Chance(0.12) {
+		return request{op: "read", format: format, bufsize: bufsize, input: []byte(tokenWalk(g, format))}
+	}
+	if format == "multi" && g.Chance(0.15) {
+		return request{op: "read", format: format, bufsize: bufsize, input: []byte(stressMulti(g))}
 	}
 	doc := validDoc(g, format)
 	pm := 0.6
